@@ -386,7 +386,7 @@ PROPS["C18"] = _tx("C18", ["C18_receiver_initial", "C18_receiver_oneway", "C18_c
 
 PROPS["C08"] = _tx("C08", ["C08_queue_initial", "C08_queue_invariant", "C08_requests_inside_scope", "C08_nak_fits",
                            "C08_exactly_what_is_missing", "C08_deferred_no_unsolicited_nak", "C08_immediate_gap_requested",
-                           "C08_immediate_expired_requests_all"], ["recv", "segments"],
+                           "C08_immediate_expired_requests_all", "C08_delayed_gap_requested_if_it_persists"], ["recv", "segments"],
     "Proof on the receive-transaction model (acknowledged mode), for every operation sequence: the NAK queue holds only "
     "non-empty ranges and the 0-0 marker (the marker only while metadata is missing); every request of a NAK PDU lies inside "
     "its scope and the PDU fits segment size + 1; after EOF the computed list is exactly the complement of the held bytes in "
@@ -395,7 +395,7 @@ PROPS["C08"] = _tx("C08", ["C08_queue_initial", "C08_queue_invariant", "C08_requ
     "(well-formedness, scope, size, file bound, deferred rule, exactness of the post-EOF NAK batch).",
     " The immediate-procedure clause: detection IS a theorem (C08_immediate_gap_requested: the gap revealed by data beyond the "
     "previous end is queued at once with zero delay, put under a delay timer otherwise); 'requested after the delay if it "
-    "persists' (ht_delayed) is covered by the model's branch structure and the lock-step stream only; 'inside the "
+    "persists' too (C08_delayed_gap_requested_if_it_persists: what is still missing inside the window when the delay has elapsed); 'inside the "
     "file' for requests queued before EOF holds when the peer sent no data beyond the EOF size (else FilesizeError).")
 
 PROPS["C01"] = _tx("C01", ["C01_staged_file_is_source", "C01_store_is_stage_step", "C01_delivered_file_is_staged_file",
